@@ -1487,7 +1487,51 @@ fn draw_corruptions(p: &mut Prng, len: usize, ntokens: usize, nlines: usize, str
     out
 }
 
+/// A header that declares, *consistently* across its three lines, a circuit of an absurd size
+/// (2^56 .. 2^64 - 2 gates, wires and input bits) followed by a few gate lines: no single-token
+/// replacement produces this, because the importer's consistency checks between the counts reject
+/// a lone huge number early. Memory for such a circuit cannot exist, so the importer has to answer
+/// with an error; it must not panic (capacity overflow) or abort (allocation failure) on the way.
+fn huge_consistent_text(p: &mut Prng) -> Vec<u8> {
+    let m: u64 = *p.pick(&[1u64 << 56, 100_000_000_000_000_000, 400_000_000_000_000_000, 1 << 59, 1 << 60, 1 << 61, 1 << 62, (1 << 63) - 1, 1 << 63, u64::MAX - 1]);
+    let k = p.range(1, 3);
+    let widths: Vec<u64> = match p.below(3) {
+        0 => (0..k).map(|_| m / k).collect(),
+        1 => (0..k).map(|i| if i == 0 { m - (k - 1) } else { 1 }).collect(),
+        _ => (0..k).map(|i| if i + 1 == k { m - (k - 1) } else { 1 }).collect(),
+    };
+    let tot: u64 = widths.iter().sum();
+    let nw = match p.below(4) {
+        0 => tot,
+        1 => tot.saturating_add(p.range(1, 3)),
+        2 => tot.saturating_add(tot),
+        _ => tot.saturating_add(1),
+    };
+    let ng = match p.below(5) {
+        0 => nw,
+        1 => nw - tot,
+        2 => m - 1,
+        3 => nw.saturating_add(1),
+        _ => m,
+    };
+    let nout = *p.pick(&[1u64, 1, 1, 2, m]);
+    let mut s = format!("{ng} {nw}\n{k} {}\n1 {nout}\n\n", widths.iter().map(|x| x.to_string()).collect::<Vec<_>>().join(" "));
+    for g in 0..p.below(4) {
+        let out = tot.saturating_add(g);
+        let a = *p.pick(&[0u64, 1, tot - 1, tot / 2]);
+        match p.below(3) {
+            0 => s.push_str(&format!("2 1 {a} 0 {out} XOR\n")),
+            1 => s.push_str(&format!("2 1 0 {a} {out} AND\n")),
+            _ => s.push_str(&format!("1 1 {a} {out} INV\n")),
+        }
+    }
+    s.into_bytes()
+}
+
 fn random_text(p: &mut Prng) -> Vec<u8> {
+    if p.chance(1, 8) {
+        return huge_consistent_text(p);
+    }
     // plausible-looking Bristol text with wrong numbers, so the parser gets past the first checks
     let nin = p.range(1, 3);
     let ins: Vec<u64> = (0..nin).map(|_| *p.pick(&[0u64, 1, 2, 8, 16])).collect();
